@@ -28,7 +28,7 @@ class RdflibSgraph(SGraph):
 
     def query_single_variable(self, str_query, variable_id):
         rows_res = self._rdflib_graph.query(str_query)
-        return [str(a_row[0]) for a_row in rows_res]
+        return [str(a_row[0]) for a_row in rows_res if type(a_row[0]) != Literal]  # a literal cannot be a focus node
 
     def serialize(self, path, format):
         self._rdflib_graph.serialize(destination=path,
